@@ -33,24 +33,68 @@ pub fn oracle(c: &MutCase, obs: &mut Obs) -> Vec<Violation> {
     }
     obs.sample(if e2.is_empty() { "clean" } else { "violating" }, || json!({"mt": mt, "text": x, "codes": m.body.errs_all.iter().map(|e| e.code.clone()).collect::<Vec<_>>()}));
     if e1.len() > e2.len() || e2[..e1.len()] != e1[..] {
-        out.push(viol(format!("C13|MT{mt}|not-prefix"), format!("stop-on-first {:?} is not a prefix of the full list {:?}", m.body.errs_first.iter().map(|e| &e.code).collect::<Vec<_>>(), m.body.errs_all.iter().map(|e| &e.code).collect::<Vec<_>>())));
+        out.push(viol(
+            format!("C13|MT{mt}|not-prefix"),
+            format!(
+                "stop-on-first {:?} is not a prefix of the full list {:?}",
+                m.body
+                    .errs_first
+                    .iter()
+                    .map(|e| &e.code)
+                    .collect::<Vec<_>>(),
+                m.body.errs_all.iter().map(|e| &e.code).collect::<Vec<_>>()
+            ),
+        ));
     }
     if e1.is_empty() != e2.is_empty() {
-        out.push(viol(format!("C13|MT{mt}|emptiness"), format!("stop-on-first has {} errors, full list {}", e1.len(), e2.len())));
+        out.push(viol(
+            format!("C13|MT{mt}|emptiness"),
+            format!(
+                "stop-on-first has {} errors, full list {}",
+                e1.len(),
+                e2.len()
+            ),
+        ));
     }
     if m.body.errs_all != m.body.errs_all_again {
-        out.push(viol(format!("C13|MT{mt}|unstable"), "validating twice gives different lists".to_string()));
+        out.push(viol(
+            format!("C13|MT{mt}|unstable"),
+            "validating twice gives different lists".to_string(),
+        ));
     }
-    if m.body.json_after_validate != m.body.json || m.body.mt_string_after_validate != m.body.mt_string {
-        out.push(viol(format!("C13|MT{mt}|mutated"), "validation changed the message".to_string()));
+    if m.body.json_after_validate != m.body.json
+        || m.body.mt_string_after_validate != m.body.mt_string
+    {
+        out.push(viol(
+            format!("C13|MT{mt}|mutated"),
+            "validation changed the message".to_string(),
+        ));
     }
     // SwiftMessage::validate
-    if m.is_valid != e2.is_empty() || m.validate_errors.len() != e2.len() || m.validate_warnings != 0 && false {
-        out.push(viol(format!("C13|MT{mt}|adapter:SwiftMessage::validate|count"), format!("is_valid={} errors={} vs full list {}", m.is_valid, m.validate_errors.len(), e2.len())));
+    if m.is_valid != e2.is_empty()
+        || m.validate_errors.len() != e2.len()
+        || m.validate_warnings != 0 && false
+    {
+        out.push(viol(
+            format!("C13|MT{mt}|adapter:SwiftMessage::validate|count"),
+            format!(
+                "is_valid={} errors={} vs full list {}",
+                m.is_valid,
+                m.validate_errors.len(),
+                e2.len()
+            ),
+        ));
     } else {
         for (a, b) in m.validate_errors.iter().zip(m.body.errs_all.iter()) {
             if a.0 != b.code {
-                out.push(viol(format!("C13|MT{mt}|adapter:SwiftMessage::validate|order"), format!("rule names {:?} vs codes {:?}", m.validate_errors.iter().map(|x| &x.0).collect::<Vec<_>>(), m.body.errs_all.iter().map(|e| &e.code).collect::<Vec<_>>())));
+                out.push(viol(
+                    format!("C13|MT{mt}|adapter:SwiftMessage::validate|order"),
+                    format!(
+                        "rule names {:?} vs codes {:?}",
+                        m.validate_errors.iter().map(|x| &x.0).collect::<Vec<_>>(),
+                        m.body.errs_all.iter().map(|e| &e.code).collect::<Vec<_>>()
+                    ),
+                ));
                 break;
             }
         }
@@ -58,20 +102,47 @@ pub fn oracle(c: &MutCase, obs: &mut Obs) -> Vec<Violation> {
     // ParsedSwiftMessage::validate
     if let Ok(a) = parse_auto(&x) {
         if a.is_valid != m.is_valid || a.validate_errors != m.validate_errors {
-            out.push(viol(format!("C13|MT{mt}|adapter:ParsedSwiftMessage::validate"), format!("{:?} vs {:?}", a.validate_errors, m.validate_errors)));
+            out.push(viol(
+                format!("C13|MT{mt}|adapter:ParsedSwiftMessage::validate"),
+                format!("{:?} vs {:?}", a.validate_errors, m.validate_errors),
+            ));
         }
     }
     // plugin
     match plugin_validate(&x) {
         Ok(v) => {
             let valid = v.get("valid").and_then(|b| b.as_bool());
-            let errs: Vec<String> = v.get("errors").and_then(|a| a.as_array()).map(|a| a.iter().filter_map(|s| s.as_str().map(|t| t.to_string())).collect()).unwrap_or_default();
+            let errs: Vec<String> = v
+                .get("errors")
+                .and_then(|a| a.as_array())
+                .map(|a| {
+                    a.iter()
+                        .filter_map(|s| s.as_str().map(|t| t.to_string()))
+                        .collect()
+                })
+                .unwrap_or_default();
             if valid != Some(e2.is_empty()) || errs.len() != e2.len() {
-                out.push(viol(format!("C13|MT{mt}|adapter:validate_mt|count"), format!("plugin valid={:?} errors={} vs full list {}: {:?}", valid, errs.len(), e2.len(), errs)));
+                out.push(viol(
+                    format!("C13|MT{mt}|adapter:validate_mt|count"),
+                    format!(
+                        "plugin valid={:?} errors={} vs full list {}: {:?}",
+                        valid,
+                        errs.len(),
+                        e2.len(),
+                        errs
+                    ),
+                ));
             } else {
                 for (s, e) in errs.iter().zip(m.body.errs_all.iter()) {
                     if !s.starts_with(&format!("[{}]", e.code)) {
-                        out.push(viol(format!("C13|MT{mt}|adapter:validate_mt|order"), format!("plugin errors {:?} vs codes {:?}", errs, m.body.errs_all.iter().map(|e| &e.code).collect::<Vec<_>>())));
+                        out.push(viol(
+                            format!("C13|MT{mt}|adapter:validate_mt|order"),
+                            format!(
+                                "plugin errors {:?} vs codes {:?}",
+                                errs,
+                                m.body.errs_all.iter().map(|e| &e.code).collect::<Vec<_>>()
+                            ),
+                        ));
                         break;
                     }
                 }
@@ -79,7 +150,10 @@ pub fn oracle(c: &MutCase, obs: &mut Obs) -> Vec<Violation> {
         }
         Err(e) => {
             if !e.is_panic() {
-                out.push(viol(format!("C13|MT{mt}|adapter:validate_mt|failed"), e.text()));
+                out.push(viol(
+                    format!("C13|MT{mt}|adapter:validate_mt|failed"),
+                    e.text(),
+                ));
             }
         }
     }
@@ -89,7 +163,15 @@ pub fn oracle(c: &MutCase, obs: &mut Obs) -> Vec<Violation> {
 pub fn run(ctx: &Ctx) {
     ctx.add_rule("per message type: messages from the layout generator with rule-relevant contents (codes, currencies, amounts drawn from small pools so that rule antecedents fire, see C04) and their structural mutations; accepted => rules(true) is a prefix of rules(false) with equal emptiness, SwiftMessage::validate / ParsedSwiftMessage::validate / validate_mt agree in verdict, count and order, a second call is identical and the message is unchanged; non-trivial = at least one rule violated; distinct by text");
     let to_json = |c: &MutCase| serde_json::to_value(c).unwrap();
-    ctx.run_generated("coherence", MSGS.len(), ctx.n(1500, 40000), 1800, &|sh, src: &mut Src| crate::props::c04::gen_rule_case(mt_of_shard(sh), src), &oracle, &to_json);
+    ctx.run_generated(
+        "coherence",
+        MSGS.len(),
+        ctx.n(1500, 40000),
+        1800,
+        &|sh, src: &mut Src| crate::props::c04::gen_rule_case(mt_of_shard(sh), src),
+        &oracle,
+        &to_json,
+    );
 }
 
 pub fn replay(_ctx: &Ctx, _sub: &str, case: &Value) -> Vec<Violation> {
